@@ -176,7 +176,11 @@ func (c *Ctx) terminalTables() {
 	spec := map[int64]bool{4: true, 6: true, 7: true, 9: true, 11: true, 13: true}
 	// (a) states Acked releases: comparisons of a .State load whose equal-edge reaches removeHead or an append to ackdone
 	releases := map[int64]bool{}
+	// the drain loop may live in a helper of Acked
 	sites := constsCompared(acked, isStateLoad)
+	if h := c.ackedDrainHost(); h != nil && h != acked {
+		sites = append(sites, constsCompared(h, isStateLoad)...)
+	}
 	for _, s := range sites {
 		if edgeReaches(s.If, s.Edge, func(in ssa.Instruction) bool {
 			if call, ok := in.(*ssa.Call); ok {
@@ -257,7 +261,12 @@ func (c *Ctx) releaseLoopContract(prop string) {
 	}
 	c.R.Check(early == "", ruleP4, "release-loop:visits-every-entry", c.P.Pos(fn.Pos()), "the loop is left only when all released entries were processed", "the loop can be left at "+early+" before all released entries were processed: their completions never fire")
 
-	g := paths.New(c.P, fn, 0)
+	// helpers of the loop body (e.g. a shared "rebuild the stored message" function) are inlined; the
+	// hand-over and the queue are events
+	g := paths.New(c.P, fn, 2)
+	g.Expand = func(callee *ssa.Function, site ssa.CallInstruction) bool {
+		return callee != r.HandOver && callee != r.RingWrite && callee.Pkg != nil && callee.Pkg.Pkg.Path() == pkgService
+	}
 	var body []paths.Node
 	for _, s := range loop.Header.Succs {
 		if loop.Blocks[s] {
@@ -323,6 +332,40 @@ func (c *Ctx) releaseLoopContract(prop string) {
 				ap := ir.PathOf(dc.Common().Args[0])
 				if len(ap.Fields) > 0 && ap.Fields[len(ap.Fields)-1] == "Msgbuf" && ir.Before(dc, call) {
 					okSrc = true
+				}
+			}
+			// or: the message is what a helper returns after decoding the bytes it was given, and it was given Msgbuf
+			inner := msgv
+			if ex, ok := inner.(*ssa.Extract); ok {
+				inner = ex.Tuple
+			}
+			if hc, ok := inner.(*ssa.Call); ok && !okSrc {
+				if h := hc.Common().StaticCallee(); h != nil && h.Blocks != nil && c.P.InLib(h) {
+					for _, ret := range ir.Returns(h) {
+						if len(ret.Results) == 0 {
+							continue
+						}
+						if k, isK := ir.ReturnOperand(ret, len(ret.Results)-1).(*ssa.Const); !isK || !k.IsNil() {
+							continue
+						}
+						mv := ir.SeeThrough(ir.ReturnOperand(ret, 0))
+						for _, dcall := range ir.Calls(h) {
+							dcc := dcall.Common()
+							if !dcc.IsInvoke() || dcc.Method.Name() != "Decode" || ir.SeeThrough(dcc.Value) != mv {
+								continue
+							}
+							if par, isP := ir.SeeThrough(dcc.Args[0]).(*ssa.Parameter); isP {
+								for i, q := range h.Params {
+									if q == par && i < len(hc.Common().Args) {
+										ap := ir.PathOf(hc.Common().Args[i])
+										if len(ap.Fields) > 0 && ap.Fields[len(ap.Fields)-1] == "Msgbuf" {
+											okSrc = true
+										}
+									}
+								}
+							}
+						}
+					}
 				}
 			}
 		}
@@ -630,9 +673,28 @@ func ringSlot(v ssa.Value) (idx ssa.Value, ok bool) {
 	}
 	p := ir.PathOf(ia.X)
 	if len(p.Fields) == 0 || p.Fields[len(p.Fields)-1] != "ring" {
-		return nil, false
+		// a local slice that this function installs as the ring (grow's new ring) is the ring
+		if !isRingAlias(p.Root) || len(p.Fields) != 0 {
+			return nil, false
+		}
 	}
 	return ir.SeeThrough(ia.Index), true
+}
+
+// isRingAlias: v is a slice allocated in its function and stored into the queue's ring field there.
+func isRingAlias(v ssa.Value) bool {
+	mk, ok := v.(*ssa.MakeSlice)
+	if !ok || mk.Referrers() == nil {
+		return false
+	}
+	for _, ref := range *mk.Referrers() {
+		if st, ok := ref.(*ssa.Store); ok && st.Val == ssa.Value(mk) {
+			if p := ir.PathOf(st.Addr); len(p.Fields) > 0 && p.Fields[len(p.Fields)-1] == "ring" {
+				return true
+			}
+		}
+	}
+	return false
 }
 
 func isFieldLoad(v ssa.Value, field string) bool {
@@ -771,6 +833,9 @@ func (c *Ctx) checkIndexUpdate(fn *ssa.Function, mu *ssa.MapUpdate) {
 	val := ir.SeeThrough(mu.Value)
 	// (a) key is ring[val].Pktid
 	if base, ok := fieldLoadOf(mu.Key, "Pktid"); ok {
+		if cv, isC := val.(*ssa.Convert); isC {
+			val = ir.SeeThrough(cv.X)
+		}
 		if idx, ok := ringSlot(base); ok && idx == val {
 			// the ring must be the current one: no store to the ring field can follow its load
 			c.R.Ok(ruleT5, key, c.P.InstrPos(mu), "id -> i with the id read from ring[i] itself")
